@@ -12,6 +12,7 @@ mod uf {
     pub fn umul_f32(a: f32, b: f32) -> f32 { a * b }
     pub fn udiv_f32(a: f32, b: f32) -> f32 { a / b }
     pub fn ufloor_f32(a: f32) -> f32 { a.floor() }
+    pub fn mul_add_f32(a: f32, b: f32, c: f32) -> f32 { a.mul_add(b, c) }
 }
 
 const SPECIAL: [u32; 40] = [
